@@ -293,12 +293,19 @@ def oracle_call(case, resp):
             else:
                 rl = q.get("resplimit", 0)
                 over = rl > 0 and unframed > rl
-            if over:
+            if q.get("oneway") and q["transport"] == "nats":
+                # nobody waits for the answer
+                if code != 0:
+                    why = "oneway request within the limit failed: %s %s" % (CODE_NAMES.get(code, code), resp.get("msg"))
+            elif over:
                 if code != 12:
                     why = "reply of %d bytes over the limit %d: caller got %s (%s), want RESPONSE_TOO_LARGE" % (
                         unframed + 4, rl, CODE_NAMES.get(code, code), resp.get("msg"))
             else:
-                if code != 0 or not resp.get("result_ok"):
+                if q.get("oneway"):
+                    if code != 0:
+                        why = "oneway request within the limits failed: %s %s" % (CODE_NAMES.get(code, code), resp.get("msg"))
+                elif code != 0 or not resp.get("result_ok"):
                     why = "reply of %d bytes within the limit %d: caller got %s (%s) result_ok=%s" % (
                         unframed + 4, rl, CODE_NAMES.get(code, code), resp.get("msg"), resp.get("result_ok"))
                 elif (resp.get("replies") or []) != [unframed + 4]:
@@ -332,10 +339,10 @@ def judge_call(case, resp):
             resp.get("rep_hdr", 0), resp.get("min_hdr", 0), ops_tok(resp.get("rep_ops")), ops_tok(resp.get("err_ops")),
             resp.get("code", -5), list(resp.get("sent") or []), list(resp.get("replies") or []),
             binp, len(q.get("method", "echo")), val_tok(q["args"]) if binp else [0], val_tok(q["reply"]) if binp else [0],
-            resp.get("errmsg_len", 0)]
+            resp.get("errmsg_len", 0), 1 if q.get("oneway") else 0]
 
 
-def call_req(transport, proto, args, reply, reqlimit=0, resplimit=0, method="echo", hdrs=None, rhdrs=None):
+def call_req(transport, proto, args, reply, reqlimit=0, resplimit=0, method="echo", hdrs=None, rhdrs=None, oneway=False):
     q = {"op": "call", "transport": transport, "proto": proto, "args": args, "reply": reply, "method": method,
          "followup": True, "timeout_ms": 4000}
     if reqlimit:
@@ -346,6 +353,8 @@ def call_req(transport, proto, args, reply, reqlimit=0, resplimit=0, method="ech
         q["hdrs"] = hdrs
     if rhdrs:
         q["rhdrs"] = rhdrs
+    if oneway:
+        q["oneway"] = True
     return q
 
 
@@ -540,6 +549,10 @@ def run(ctx, br):
                              "req": call_req("http", s["proto"], s["args"], s["reply"], reqlimit=max(1, S + d), method=s["method"])})
                 main.append({"kind": "call", "meta": dict(s, role="http-resp", delta=d),
                              "req": call_req("http", s["proto"], s["args"], s["reply"], resplimit=max(1, R + d), method=s["method"])})
+            for d in (-1, 0, 1):
+                main.append({"kind": "call", "meta": dict(s, role="http-oneway", delta=d),
+                             "req": call_req("http", s["proto"], s["args"], s["reply"], reqlimit=max(1, S + d),
+                                             method=s["method"], oneway=True)})
             main.append({"kind": "call", "meta": dict(s, role="http-both", delta=0),
                          "req": call_req("http", s["proto"], s["args"], s["reply"], reqlimit=S + rng.choice([-1, 0, 1]),
                                          resplimit=max(1, R + rng.choice([-1, 0, 1])), method=s["method"])})
@@ -557,6 +570,10 @@ def run(ctx, br):
                 v, _ = with_big(s["args"], base + (MIB + d - r1["sent"][0]))
                 main.append({"kind": "call", "meta": dict(s, role="nats-req", delta=d, args=None, reply=None),
                              "req": call_req("nats", s["proto"], v, SMALL_REPLY)})
+            for d in (0, 1):
+                v, _ = with_big(s["args"], base + (MIB + d - r1["sent"][0]))
+                main.append({"kind": "call", "meta": dict(s, role="nats-oneway", delta=d, args=None, reply=None),
+                             "req": call_req("nats", s["proto"], v, SMALL_REPLY, oneway=True)})
         if r2.get("code") == 0 and r2.get("replies"):
             base = first_big(s["reply"])
             for d in DELTAS:
